@@ -17,6 +17,7 @@ binding half: harness/apidrv calls the REAL functions
               and TLC (spec/TraceApiAlgebra.tla) evaluates the law on every
               logged value (-> violation) and the code model (-> drift).
 """
+import hashlib
 import concurrent.futures as cf
 import glob, json, os, shutil, sys, time
 from collections import Counter, defaultdict
@@ -66,7 +67,14 @@ class jvm_heap:
 def regen_table():
     """go/parser over the CURRENT library source -> harness/apidrv/table_gen.go
     (written only when it changes, atomically)."""
-    rc, out = run([gobin(), "run", "./apidrv/apigen", "-repo", REPO, "-out", "apidrv/table_gen.go"],
+    out_path = "apidrv/table_gen.go"
+    if os.path.abspath(REPO) != "/repo":
+        # a scratch checkout (VERIF_REPO): never touch the tracked harness source; the
+        # generated table is dropped into the harness COPY by build_harness
+        os.makedirs(BUILD, exist_ok=True)
+        out_path = os.path.join(BUILD, "table_gen-%s.go" % hashlib.sha1(os.path.abspath(REPO).encode()).hexdigest()[:8])
+        os.environ["VERIF_TABLE_GEN"] = out_path
+    rc, out = run([gobin(), "run", "./apidrv/apigen", "-repo", REPO, "-out", out_path],
                   cwd=HARNESS, timeout=600)
     if rc != 0:
         raise Inconclusive("apigen failed:\n" + out[-3000:])
